@@ -90,11 +90,15 @@ class Generator(Context):
 
         """
 
+        updates = {}
         for key, value in settings.items():
             if key not in self:
                 raise TypeError("%r is not a valid argument." % key)
             if key.startswith("auto_"):
                 value = parse_trool(value)
+            updates[key] = value
+        # apply only once every setting has been accepted
+        for key, value in updates.items():
             self[key] = value
         return self["markup_wrapper"]("")
 
